@@ -143,7 +143,7 @@ def repo_state():
 
 
 def load_known():
-    p = os.path.join(VERIF, "known_findings.json")
+    p = os.environ.get("HTSIM_KNOWN_FILE") or os.path.join(VERIF, "known_findings.json")
     if not os.path.exists(p):
         return {"known": [], "fixed": []}
     with open(p) as f:
